@@ -475,7 +475,7 @@ def check_wrapper_outcomes(chk, F):
                   "(all leaves kept, in order, at their depths); a failing key mapping or inner translation is returned as "
                   "that very error, a refusing constructor as TranslateErr::OuterError (outcome table, every position of "
                   "the failure)")
-    TAPTREE = "descriptor::tr::TapTree"
+    TAPTREE = "descriptor::tr::taptree::TapTree"
     TE = "TranslateErr"
 
     def msv(name):
